@@ -353,7 +353,7 @@ def run_harness(exe, prop, seed, cases, nshards=None, tier='quick', args=(), env
                 if line.startswith('V\t'):
                     parts = line.split('\t', 3)
                     if len(parts) == 4:
-                        out['viol'].append({'key': '%s:%s' % (kp, parts[1]), 'case': int(parts[2]), 'detail': parts[3], 'kind': 'model'})
+                        out['viol'].append({'key': '%s:%s' % (kp, parts[1]), 'case': int(parts[2]), 'detail': parts[3], 'kind': 'model', 'proc_start': start})
                 elif line.startswith('SUMMARY\t'):
                     try:
                         summary = json.loads(line.split('\t', 1)[1])
@@ -370,14 +370,14 @@ def run_harness(exe, prop, seed, cases, nshards=None, tier='quick', args=(), env
                     start = max(idx, start)
                     continue
                 out['hangs'] += 1
-                out['viol'].append({'key': '%s:hang' % kp, 'case': idx, 'detail': 'watchdog %ss fired twice at this case' % timeout, 'kind': 'hang'})
+                out['viol'].append({'key': '%s:hang' % kp, 'case': idx, 'detail': 'watchdog %ss fired twice at this case' % timeout, 'kind': 'hang', 'proc_start': start})
             else:
                 try:
                     st = open(errp, 'r', errors='replace').read()
                 except OSError:
                     st = ''
                 cls, fn, excerpt = parse_crash(st, rc)
-                out['viol'].append({'key': '%s:%s:%s' % (kp, cls, fn), 'case': idx, 'detail': excerpt[-2500:], 'kind': 'crash'})
+                out['viol'].append({'key': '%s:%s:%s' % (kp, cls, fn), 'case': idx, 'detail': excerpt[-2500:], 'kind': 'crash', 'proc_start': start})
             out['restarts'] += 1
             if idx < 0 or out['restarts'] > max_restarts:
                 out['trunc'] = True
@@ -414,17 +414,29 @@ def run_harness(exe, prop, seed, cases, nshards=None, tier='quick', args=(), env
     return res
 
 
-def replay_case(v, verbose=True, timeout=300):
-    """Re-execute one case in a fresh process. Returns (keys_seen, stdout, stderr, rc)."""
+def replay_case(v, verbose=True, timeout=300, history=None):
+    """Re-execute one case in a fresh process. Returns (keys_seen, stdout, stderr, rc).
+    history: re-execute, in one fresh process, the cases of the same shard from the index the original process started at up to and
+    including this case (a violation that needs what earlier cases left behind in the process -- static variables, allocator state --
+    is a function of that history, which is itself a pure function of (seed, shard, start))."""
+    if history is None:
+        history = bool(v.get('history'))
     e = dict(os.environ)
     e.update(ASAN_ENV)
     e['VERIF_TIER'] = v.get('tier', 'quick')
     e.update(v.get('env') or {})
     outdir = tempfile.mkdtemp(prefix='replay-', dir=os.path.join(BUILD, 'run') if os.path.isdir(os.path.join(BUILD, 'run')) else None)
-    cmd = list(v.get('wrapper') or []) + [v['exe'], '--seed', str(v['seed']), '--nshards', str(v['nshards']), '--only', str(v['case']),
-                                          '--tier', v.get('tier', 'quick'), '--out', outdir] + list(v.get('args') or [])
-    if verbose:
-        cmd.append('--verbose')
+    if history:
+        ns = int(v['nshards'])
+        cmd = list(v.get('wrapper') or []) + [v['exe'], '--seed', str(v['seed']), '--nshards', str(ns), '--shard', str(int(v['case']) % ns),
+                                              '--start', str(v.get('proc_start') or 0), '--upto', str(v['case']), '--cases', str(int(v['case']) // ns + 1),
+                                              '--tier', v.get('tier', 'quick'), '--out', outdir] + list(v.get('args') or [])
+        timeout = max(timeout, 1800)
+    else:
+        cmd = list(v.get('wrapper') or []) + [v['exe'], '--seed', str(v['seed']), '--nshards', str(v['nshards']), '--only', str(v['case']),
+                                              '--tier', v.get('tier', 'quick'), '--out', outdir] + list(v.get('args') or [])
+        if verbose:
+            cmd.append('--verbose')
     try:
         p = subprocess.run(cmd, stdout=subprocess.PIPE, stderr=subprocess.PIPE, env=e, timeout=timeout, cwd=outdir)
         rc, so, se = p.returncode, p.stdout.decode('utf-8', 'replace'), p.stderr.decode('utf-8', 'replace')
@@ -436,6 +448,8 @@ def replay_case(v, verbose=True, timeout=300):
     for line in so.splitlines():
         if line.startswith('V\t'):
             parts = line.split('\t', 3)
+            if history and len(parts) > 2 and parts[2] != str(v['case']):
+                continue
             keys.append('%s:%s' % (prefix, parts[1]))
     if rc is None:
         keys.append('%s:hang' % prefix)
@@ -617,9 +631,18 @@ class Check:
                             v = v2
                             confirmed = True
                             break
+                if not confirmed:
+                    # not a function of the case alone: try the process history (same shard, from where that process started)
+                    vh = min(vs, key=lambda x: int(x.get('case') or 0) - int(x.get('proc_start') or 0))
+                    if vh.get('proc_start') is not None:
+                        keys, so, se, rc = replay_case(vh, history=True)
+                        if key in keys:
+                            v = dict(vh, history=True)
+                            confirmed = True
+                            v['detail'] = (v.get('detail') or '') + ' || reproduced only together with the cases this process ran before it (shard %d from case %s): the outcome depends on state left behind by earlier calls' % (int(vh['case']) % int(vh['nshards']), vh.get('proc_start'))
                 replay_log = 'rc=%s\nkeys=%s\n--- stdout\n%s\n--- stderr\n%s' % (rc, keys, so[-6000:], se[-12000:])
             rp = os.path.join(EVID, 'replay', '%s-%s.json' % (prop, hashlib.sha1(key.encode()).hexdigest()[:10]))
-            rec = {k: v.get(k) for k in ('key', 'case', 'kind', 'detail', 'exe', 'seed', 'nshards', 'tier', 'args', 'env', 'wrapper', 'replay')}
+            rec = {k: v.get(k) for k in ('key', 'case', 'kind', 'detail', 'exe', 'seed', 'nshards', 'tier', 'args', 'env', 'wrapper', 'replay', 'history', 'proc_start')}
             rec.update({'property': prop, 'occurrences': len(vs), 'confirmed_by_reexecution': confirmed, 'replay_log': replay_log,
                         'src': SRC, 'how': 'bin/check %s --replay %s' % (prop, rp)})
             with open(rp, 'w') as f:
